@@ -115,6 +115,7 @@ type storeImpl struct {
 	nCase   int
 	sess    map[string]*stSess
 	dbReady bool
+	crashOn bool // family "crash": the crash-point hook of store/file is on and every op on a file store is traced
 	crash   *crashState
 }
 
@@ -161,6 +162,10 @@ func (im *storeImpl) reset(string) {
 	}
 	im.dbReady = false
 	im.crash = nil
+	if im.crashOn {
+		im.crash = &crashState{im: im, traces: map[string]*opTrace{}, dur: map[string]fsnap{}, syncLive: map[string]bool{}}
+		file.VerifHook = im.crash.hook
+	}
 	sqlCtl.arm(0)
 }
 
@@ -309,7 +314,7 @@ func (cbAbort) Error() string { return "callback aborted" }
 func (im *storeImpl) exec(op string) string {
 	w := strings.Fields(op)
 	return guard(func() string {
-		if len(w) >= 1 && strings.HasPrefix(w[0], "crash") {
+		if len(w) >= 1 && (strings.HasPrefix(w[0], "crash") || w[0] == "sqlfail") {
 			return im.execCrash(w)
 		}
 		if w[0] == "open" {
@@ -319,6 +324,10 @@ func (im *storeImpl) exec(op string) string {
 			}
 			s := &stSess{kind: kind, sid: sid, id: sessionIDOf(sid)}
 			im.sess[sid] = s
+			if im.crash != nil && strings.HasPrefix(kind, "file") {
+				im.crash.begin(sid)
+				defer im.crash.end()
+			}
 			st, err := im.create(kind, sid, im.fsDir())
 			if err != nil {
 				return im.obs(s, false, nil)
@@ -329,6 +338,10 @@ func (im *storeImpl) exec(op string) string {
 		s, ok := im.sess[w[1]]
 		if !ok || s.st == nil {
 			panic("no store for " + w[1])
+		}
+		if im.crash != nil && strings.HasPrefix(s.kind, "file") {
+			im.crash.begin(s.sid)
+			defer im.crash.end()
 		}
 		var err error
 		var msgs [][]byte
